@@ -10,7 +10,7 @@ git -C /repo worktree add -q --detach "$wt" HEAD || exit 2
 trap 'git -C /repo worktree remove --force "$wt" >/dev/null 2>&1; rm -rf "$wt"' EXIT
 git -C "$wt" apply "$d/patch.diff" || { echo "patch does not apply"; exit 2; }
 for p in $props; do
-  out=$(VERIF_REPO="$wt" /verif/check "$p" --tier "${VERIF_TIER:-quick}" 2>/tmp/seedrun-$$.err); rc=$?
+  out=$(VERIF_REPO="$wt" "$(dirname "$0")/../check" "$p" --tier "${VERIF_TIER:-quick}" 2>/tmp/seedrun-$$.err); rc=$?
   nv=$(echo "$out" | grep -c '^VIOLATION')
   echo "SEED $(basename "$d") check=$p exit=$rc violations=$nv $(echo "$out" | grep '^VIOLATION' | head -2 | tr '\n' ' ')"
   [ $rc -eq 2 ] && tail -5 /tmp/seedrun-$$.err
